@@ -84,14 +84,58 @@ def _design_plugin():
 _PM = None
 
 
+def _workarray_plugin():
+    from ropt.plugins.optimizer.base import Optimizer, OptimizerPlugin  # noqa: PLC0415
+
+    class WorkArrayOptimizer(Optimizer):
+        """A back-end that takes the start vector it is handed as its own work array: it rescales it in place to internal units
+        (x10) and updates it in place, the way compiled back-ends do; it asks for a handful of functions and gradients at the
+        free part of the vector."""
+
+        def __init__(self, config, optimizer_callback):
+            self._config, self._callback = config, optimizer_callback
+
+        def start(self, initial_values):
+            work = initial_values
+            mask = self._config.variables.mask
+            free = np.ones(work.size, dtype=bool) if mask is None else np.asarray(mask, dtype=bool)
+            work *= 10.0
+            self._callback(work[free] / 10.0, return_functions=True, return_gradients=False)
+            for k in range(3):
+                work[free] += 0.2 * (k + 1)
+                self._callback(work[free] / 10.0, return_functions=True, return_gradients=(k % 2 == 0))
+
+        @property
+        def allow_nan(self):
+            return False
+
+        @property
+        def is_parallel(self):
+            return False
+
+    class WorkArrayPlugin(OptimizerPlugin):
+        def create(self, config, optimizer_callback):
+            return WorkArrayOptimizer(config, optimizer_callback)
+
+        def is_supported(self, method):
+            return method.lower() == "workarray"
+
+        @property
+        def allows_discovery(self):
+            return False
+
+    return WorkArrayPlugin()
+
+
 def plugin_manager(fresh=False):
-    """PluginManager with the injected 'verif/design' sampler registered."""
+    """PluginManager with the injected 'verif/design' sampler (and the 'verif/workarray' optimizer) registered."""
     global _PM  # noqa: PLW0603
     from ropt.plugins import PluginManager  # noqa: PLC0415
 
     if fresh or _PM is None:
         pm = PluginManager()
         pm.add_plugin("sampler", "verif", _design_plugin())
+        pm.add_plugin("optimizer", "verif", _workarray_plugin())
         if fresh:
             return pm
         _PM = pm
@@ -140,7 +184,9 @@ def make_config_dict(spec):
     if s.get("filters"):
         cfg["realization_filters"] = s["filters"]
     if s.get("estimators"):
-        cfg["function_estimators"] = [{"method": m} for m in s["estimators"]]
+        # s["estimator_spelling"]: the same methods in another of the spellings the plug-in manager accepts
+        k = int(s.get("estimator_spelling", 0))
+        cfg["function_estimators"] = [{"method": [m, "default/" + m, "Default/" + m.title(), m.upper()][k % 4]} for m in s["estimators"]]
     if s.get("samplers"):
         cfg["samplers"] = s["samplers"]
     if s.get("linear"):
@@ -334,3 +380,16 @@ def filter_keys(spec, f):
     if flt["method"].endswith("objective"):
         return set(s)
     return {n_obj + s}
+
+
+def rmin_of(spec):
+    """The realization threshold in force as the documentation states it (an oracle does not read it off the validated
+    configuration): the configured value, at most the ensemble size; all realizations when not configured."""
+    R = int(spec["R"])
+    return R if spec.get("rmin") is None else min(int(spec["rmin"]), R)
+
+
+def pmin_of(spec):
+    """The perturbation threshold in force: the configured value, at most the number of perturbations; all of them when not configured."""
+    P = int(spec["P"])
+    return P if spec.get("pmin") is None else min(int(spec["pmin"]), P)
